@@ -186,7 +186,13 @@ func reprDepth(v interface{}, depth int) string {
 	case reflect.Map:
 		var parts []string
 		for it := rv.MapRange(); it.Next(); { // MapRange: a NaN key cannot be looked up again
-			parts = append(parts, fmt.Sprint(it.Key().Interface())+":"+reprDepth(it.Value().Interface(), depth+1))
+			key := ""
+			if k := it.Key(); k.Kind() == reflect.Ptr || k.Kind() == reflect.Interface {
+				key = reprDepth(k.Interface(), depth+1) // (fmt would follow a pointer into a value that contains itself, for ever)
+			} else {
+				key = fmt.Sprint(k.Interface())
+			}
+			parts = append(parts, key+":"+reprDepth(it.Value().Interface(), depth+1))
 		}
 		sort.Strings(parts)
 		return "{" + strings.Join(parts, ",") + "}"
